@@ -462,7 +462,8 @@ func ruleQueueConfig(c *Check, a *Analysis, rule string) {
 	for _, fn := range p.Fns {
 		for _, nw := range callsIn(fn, "scheduler.New") {
 			call := nw.(*ssa.Call)
-			if len(call.Call.Args) < 2 {
+			nargs := p.newArgs(call)
+			if len(nargs) < 2 {
 				continue
 			}
 			bad := ""
@@ -510,7 +511,7 @@ func ruleQueueConfig(c *Check, a *Analysis, rule string) {
 					}
 				}
 			}
-			look(call.Call.Args[1], 4)
+			look(nargs[1], 4)
 			c.Ob(rule, sc.key(fn, "scheduler.Options{Threshold} only"), p.InstrPos(call), bad == "", ifs(bad != "", "this queue is configured with "+bad+": outside the configuration for which one worker means first-in first-out"))
 		}
 	}
@@ -715,8 +716,8 @@ func ruleUpdateFresh(c *Check, a *Analysis, rule string) {
 		why := ""
 		for _, o := range p.origins(mu.Value) {
 			o = p.canon(o)
-			if al, isA := o.(*ssa.Alloc); isA && al.Parent() == in.Parent() {
-				continue
+			if al, isA := o.(*ssa.Alloc); isA && (al.Parent() == in.Parent() || p.sameFn(al.Parent(), in.Parent())) {
+				continue // allocated by this Update (possibly in a small constructor helper)
 			}
 			okf, why = false, describe(o)
 		}
